@@ -473,7 +473,16 @@ class RamSession(Session):
     def acquire_lock(self):
         """Acquire an exclusive lock on the currently-loaded session data."""
         self.locked = True
-        self.locks.setdefault(self.id, threading.RLock()).acquire()
+        while True:
+            lock = self.locks.setdefault(self.id, threading.RLock())
+            lock.acquire()
+            # clean_up() may have removed this lock object from the table
+            # between the lookup and the acquire.  A lock that is no longer
+            # in the table excludes nobody (the next request would create
+            # a fresh one) and release_lock() could not find it: retry.
+            if self.locks.get(self.id) is lock:
+                break
+            lock.release()
 
     def release_lock(self):
         """Release the lock on the currently-loaded session data."""
